@@ -15,6 +15,15 @@ regenerates the shared file and builds against it; the lock order is always <tie
      (an implementation through math/big, say) the theorem is not elaborated: that is recorded as reduced coverage
      (`<key>_tie_unavailable`) and printed as a NOTE, it is not a broken proof — the differential run still covers X;
   4. restore the tracked generated file from /repo after a run against another working tree (VERIF_REPO).
+
+Floor (the guarded theorems must not be able to vanish silently): lean/Generated/expected_<target>.txt is the committed
+list of the functions that ARE translated on the reference tree.  It is produced by hand with
+    python3 -m vlib.gentie --update-expected [target ...]
+never at check time.  At check time every expected function that is not translated is reported: when the function still
+exists in the Go source (ssagen lists it as outside the fragment, with the reason) the tie is LOST — a lean problem
+"translator tie lost for …", i.e. a proof obligation that no longer checks (VIOLATION … no-failing-input-found unless the
+differential run supplies a concrete input), exactly like a broken proof, also when the rewrite is harmless; only a
+function that no longer exists at all (renamed / removed) is a NOTE.  A missing expected file is itself a problem.
 """
 import fcntl
 import hashlib
@@ -39,6 +48,33 @@ def _ssagen(repo, out_path, target):
         return json.loads(out.strip().splitlines()[-1]), out
     except Exception:
         return None, out
+
+
+def expected_path(target):
+    return os.path.join(core.LEAN, "Generated", "expected_%s.txt" % target)
+
+
+def read_expected(target):
+    p = expected_path(target)
+    if not os.path.exists(p):
+        return None
+    return [l.strip() for l in open(p) if l.strip() and not l.startswith("#")]
+
+
+def update_expected(targets, repo="/repo"):
+    """By hand only: record which functions the translator covers on the reference tree."""
+    import tempfile
+    for t in targets:
+        with tempfile.TemporaryDirectory() as d:
+            info, out = _ssagen(repo, os.path.join(d, "out.lean"), t)
+        if info is None:
+            raise SystemExit("ssagen failed for target %s: %s" % (t, out[-400:]))
+        with open(expected_path(t), "w") as f:
+            f.write("# functions that gossa/ssagen translates (target %s) on the reference tree; written by\n"
+                    "# `python3 -m vlib.gentie --update-expected %s`, never at check time (see vlib/gentie.py)\n" % (t, t))
+            for n in info["translated"]:
+                f.write(n + "\n")
+        print("%s: %d functions expected" % (expected_path(t), len(info["translated"])))
 
 
 def _guards(path):
@@ -131,6 +167,26 @@ def _run_locked(ctx, target, out_path, props_path, module, key, namespace, limit
         _register_all(ctx, props_path, namespace, guards, set(g.split(".")[-1] for g in guards.values() if g))
         return
     lean_names = set(info.get("lean", []))
+    # ---- floor: every function that is translated on the reference tree must still be translated
+    expected = read_expected(target)
+    if expected is None:
+        ctx.lean_problems.append("translator tie: %s is missing (run `python3 -m vlib.gentie --update-expected %s` on the "
+                                 "reference tree and commit it)" % (os.path.relpath(expected_path(target), core.VERIF), target))
+    else:
+        reasons = {k["name"]: k["reason"] for k in info["skipped"]}
+        lost = [n for n in expected if n not in info["translated"] and n in reasons]
+        gone = [n for n in expected if n not in info["translated"] and n not in reasons]
+        ctx.extra[key + "_tie_lost"] = ["%s: %s" % (n, reasons[n]) for n in lost]
+        ctx.extra[key + "_tie_gone"] = gone
+        if lost:
+            msg = ("translator tie lost for %s: translated on the reference tree, outside the translated fragment in this "
+                   "working tree (%s); the theorems of %s about them have nothing to state"
+                   % (", ".join(lost), "; ".join("%s: %s" % (n, reasons[n]) for n in lost), module))
+            ctx.lean_problems.append(msg)
+            print("# " + msg[:600])
+        if gone:
+            print("NOTE (translator tie): no longer present in the Go source (renamed or removed), so nothing to tie: "
+                  + ", ".join(gone))
     ctx.extra[key + "_ssa_translated"] = info["translated"]
     ctx.extra[key + "_ssa_partial"] = ["%s: %s" % (k["name"], k["reason"]) for k in (info.get("partial") or [])]
     ctx.extra[key + "_ssa_skipped"] = ["%s: %s" % (k["name"], k["reason"]) for k in info["skipped"]]
@@ -141,14 +197,16 @@ def _run_locked(ctx, target, out_path, props_path, module, key, namespace, limit
     unavailable = {n: g for n, g in guards.items() if g is not None and g.split(".")[-1] not in lean_names}
     ctx.extra[key + "_tie_unavailable"] = ["%s (no %s in this run)" % (n, g) for n, g in sorted(unavailable.items())]
     if unavailable:
-        gone = sorted(set(unavailable.values()))
-        print("NOTE (translator tie, reduced coverage — not a violation): outside the translated fragment in this working "
-              "tree: %s; %d theorem(s) of %s have nothing to state; the differential run still covers these functions"
-              % (", ".join(gone), len(unavailable), module))
+        print("NOTE (translator tie): %d theorem(s) of %s are not elaborated in this run (their subject is not translated: "
+              "%s); see the tie-lost report above" % (len(unavailable), module, ", ".join(sorted(set(unavailable.values())))))
     ctx.rules.append("translator tie: %d functions regenerated from the Go source (%s), %d outside the fragment (listed "
                      "with reasons in coverage.%s_ssa_skipped); %s proves the regenerated definitions equal to the model"
                      % (len(info["translated"]), os.path.basename(out_path), len(info["skipped"]), key, module))
     names = [n for n, g in guards.items() if n not in unavailable]
+    if unavailable and ctx.extra.get(key + "_tie_lost"):
+        # the tie was lost (not merely renamed away): the theorems that have nothing to state count as not discharged
+        for n in sorted(unavailable):
+            ctx.theorems.append({"name": namespace + "." + n, "axioms": None, "ok": False})
     # ---- build, with a wall-clock limit
     cmd = ["lake", "build", module]
     ctx.checker_cmds.append("cd lean && " + " ".join(cmd))
@@ -220,3 +278,11 @@ def _run_locked(ctx, target, out_path, props_path, module, key, namespace, limit
     ctx._scan_forbidden([module])
     ctx.extra["lean_files_scanned"] = sorted(set(prev_files) | set(ctx.extra.get("lean_files_scanned", [])))
     ctx.extra["forbidden_token_hits"] = sorted(set(prev_hits) | set(ctx.extra.get("forbidden_token_hits", [])))
+
+
+if __name__ == "__main__":
+    import sys
+    if len(sys.argv) >= 2 and sys.argv[1] == "--update-expected":
+        update_expected(sys.argv[2:] or ["f64", "f128", "geom"], os.environ.get("VERIF_REPO", "/repo"))
+    else:
+        print(__doc__)
